@@ -94,7 +94,7 @@ fn string_strategy() -> impl proptest::strategy::Strategy<Value = String> {
 }
 
 pub fn run(rep: &mut Report) {
-    let n = rep.n(150000, 2000000);
+    let n = rep.n(150000, 20000000);
     rep.run_prop(
         "write-parse",
         "fully segmented generated sentences (tags from a pool containing every delimiter and \
@@ -115,7 +115,7 @@ trailing absent tags. Non-trivial = delimiter/escape in a surface or tag, or an 
         },
         roundtrip,
     );
-    let n = rep.n(200000, 2000000);
+    let n = rep.n(200000, 20000000);
     rep.run_prop(
         "idempotence",
         "strings from four classes (reference-written valid strings, point mutations of them, \
